@@ -47,22 +47,22 @@ def _add_reference_to_dependencies(
     dependencies[name] |= {ir_util.hashable_form_of_reference(reference)}
 
 
-def _note_enclosing_attribute(attribute):
-    return {"enclosing_attribute": attribute.name.text}
-
-
 def _check_keyword_in_attribute_or_type_argument(
-    reference, source_file_name, errors, enclosing_attribute=None
+    reference, source_file_name, errors, type_definition=None
 ):
     """Reports keywords in the subtrees that _find_dependencies skips."""
     # `$next` is only meaningful in the start of a physical field, and the
-    # static-size keywords only in a `[static_requirements]` attribute; anywhere
-    # else in an attribute or in the arguments of a type they would reach
-    # later passes (and the back end) unreplaced.
+    # static-size keywords only in the attributes of an `external` type, where
+    # they stand for the size of the field that uses the type; anywhere else in
+    # an attribute or in the arguments of a type they would reach later passes
+    # (and the back end) unreplaced.
     keyword = reference.canonical_name.object_path[0]
+    in_external = type_definition is not None and type_definition.has_field(
+        "external"
+    )
     if keyword == "$next" or (
         keyword in ("$is_statically_sized", "$static_size_in_bits")
-        and enclosing_attribute != "static_requirements"
+        and not in_external
     ):
         errors.append(
             [
@@ -117,15 +117,14 @@ def _find_dependencies(ir):
         [ir_data.Attribute, ir_data.Reference],
         _check_keyword_in_attribute_or_type_argument,
         skip_descendants_of={ir_data.FieldReference},
-        incidental_actions={ir_data.Attribute: _note_enclosing_attribute},
-        parameters={"errors": errors, "enclosing_attribute": None},
+        parameters={"errors": errors},
     )
     traverse_ir.fast_traverse_ir_top_down(
         ir,
         [ir_data.AtomicType, ir_data.Reference],
         _check_keyword_in_attribute_or_type_argument,
         skip_descendants_of={ir_data.Attribute, ir_data.FieldReference},
-        parameters={"errors": errors, "enclosing_attribute": None},
+        parameters={"errors": errors},
     )
     traverse_ir.fast_traverse_ir_top_down(
         ir,
